@@ -40,6 +40,16 @@ BUILT = {
          "All 354 rows, all map keys, all 27 named constants, 6 defining values and 5 derived relations are checked on every run (exhaustive).",
          "codata.txt is the ground truth; str::parse::<f64> is correctly rounded.",
          "DESIGN.md §4 C20"),
+ "C06": ("fault_enumeration",
+         "exhaustive small-scope enumeration of builder call sequences against a reference model of the builder contract, plus fault injection at every derivative call index with a monitor over the next() history",
+         "All sequences of up to 4 (quick) / 5 (thorough) builder calls from a 17-symbol alphabet, for all 7 builders, static and dynamic dimension, are compared call by call with a contract model (millions of sequences); the derivative is made to fail at EVERY call index of a reference run and the iterator history must be Ok*, exactly one Err carrying the injected error, then None, with no further derivative call, and collect_vec must return that error.",
+         "Builder state is observed only through call outcomes and the first step of a y'=0 probe solve; Euler::with_tolerance (documented no-op) may accept or reject a non-positive value.",
+         "DESIGN.md §4 C06"),
+ "C09": ("exploration",
+         "ground-truth monitor: returned integrals against closed forms on classes decided by an independent reliability predicate; integrand call log (abscissae, counts) against interval containment and a textbook adaptive-Simpson work reference; Err-case enumeration",
+         "Hundreds of thousands (quick) to millions (thorough) of integrals per run over all nine routines, real and complex, judged against closed-form values (polynomial x exp x trig mixtures, Gamma moments, Bessel series); class membership is decided by the harness's own rule sequences and never serves as the oracle. Held on the executions observed.",
+         "Tolerance-proportional bound claimed only inside the reliability class (DESIGN.md C09); tabulated rule accuracy is C10's statement (tolerances the rows cannot resolve are out of class).",
+         "DESIGN.md §4 C09"),
 }
 
 PENDING_REASON = "check not built yet in this commit (runtime monitor designed in DESIGN.md §4; will be claimed when its harness module lands)"
